@@ -35,6 +35,9 @@ class NFrame(object):
         self.result = None
         self.exc = None
 
+    def unchanged(self):
+        return describe(self.args) == describe(self.old.args)
+
 
 class NBuilder(object):
     native = True
@@ -91,12 +94,76 @@ class NBuilder(object):
     def assume(self, cond):
         pass
 
+    def native_regions(self, name):
+        v = self.model.get(name) or {}
+        out = []
+        for e in v.get("regionlist", []):
+            def num(x):
+                if isinstance(x, dict):
+                    if "num" in x:
+                        return int(x["num"]) / int(x["den"])
+                    return float(x.get("float", 0.0))
+                return float(x)
+            rid = e["id"]["str"] if isinstance(e["id"], dict) and "str" in e["id"] else str(e["id"])
+            if e["rect"]:
+                cls = find_class(self.pkg, "RectangularRegion")
+                o = object.__new__(cls)
+                o.x1, o.y1, o.x2, o.y2 = [num(x) for x in e["p"]]
+            else:
+                cls = find_class(self.pkg, "CircularRegion")
+                o = object.__new__(cls)
+                o.cx, o.cy, o.r = [num(x) for x in e["p"][:3]]
+            o.id = rid
+            out.append(o)
+        return out
+
+    def opaque(self, name):
+        return None
+
+    def script(self, name):
+        n = max(1, int(self._num(name + ".len", 1)))
+        return ["M117 %s line %d" % (name, i) for i in range(min(n, 3))]
+
+    def set_current_user(self, anonymous):
+        import octoprint_excluderegion as m
+
+        class _U(object):
+            def is_anonymous(self_inner):
+                return bool(anonymous)
+        m.current_user = _U()
+
+    def plugin_manager(self):
+        return NPluginManager()
+
+    def comm(self, streaming):
+        return NComm(streaming)
+
     def logger(self):
         lg = logging.getLogger("verif.replay")
         lg.addHandler(logging.NullHandler())
         lg.propagate = False
         lg.setLevel(logging.CRITICAL + 1)
         return lg
+
+
+class NPluginManager(object):
+    def __init__(self):
+        self.log = []
+
+    def send_plugin_message(self, ident, msg):
+        self.log.append((ident, msg))
+
+
+class NComm(object):
+    def __init__(self, streaming):
+        self.streaming = streaming
+        self.sent = []
+
+    def isStreaming(self):
+        return self.streaming
+
+    def sendCommand(self, command, **kwargs):
+        self.sent.append(command)
 
 
 def find_class(pkg, clsname):
